@@ -569,6 +569,15 @@ def free_udp_ports(n):
     return out
 
 
+def scribble(obj):
+    """what the library hands to the application belongs to the application: it overwrites every public field of the object it got
+    (a later delivery or a later result must not show any of it)"""
+    for name in list(vars(obj)) if hasattr(obj, "__dict__") else []:
+        if name.startswith("_"): continue
+        try: setattr(obj, name, "scribbled" if isinstance(getattr(obj, name), str) else None)
+        except Exception: pass
+
+
 async def feed_bridge(n_ports, events, raising=(), show=None, sentinel=None, serial=False, restarts=0, ports=None, during_start=None):
     """events: [(port index, datagram bytes)] sent in order from one socket in paced bursts, then one sentinel per port as
     delivery barrier.  Returns (callback log [rendered device], loop-exception-handler calls, warnings).
@@ -583,6 +592,7 @@ async def feed_bridge(n_ports, events, raising=(), show=None, sentinel=None, ser
         if dev.name.startswith("SENTINEL"):
             seen_sentinel.add(dev.name); return
         k = len(log); log.append(show(dev))
+        scribble(dev)
         if k in raising: raise KeyError("user callback failure %d" % k)
     bridge = SwitcherBridge(cb, ports) if ports != WELL_KNOWN_PORTS else SwitcherBridge(cb)        # the default port list of the library
     tx = socket.socket(socket.AF_INET, socket.SOCK_DGRAM)
